@@ -141,7 +141,13 @@ func strCmp(name string) func(a, b string) int {
 	case "rev":
 		return func(a, b string) int { return strings.Compare(b, a) }
 	case "coarse": // by first letter pair: a,b | c,d | e,f
-		return func(a, b string) int { return int(a[0]-'a')/2 - int(b[0]-'a')/2 }
+		cls := func(s string) int {
+			if s == "" {
+				return -1
+			}
+			return int(s[0]) / 2
+		}
+		return func(a, b string) int { return cls(a) - cls(b) }
 	}
 	return strings.Compare
 }
